@@ -761,6 +761,9 @@ class Type3Tag(nfc.tag.Tag):
             log.debug("<< {0:02x} {1:02x} {2}".format(
                 rsp[0], rsp[1], hexlify(rsp[2:]).decode()))
             return rsp[2:]
+        if check_status and len(rsp) < 12:
+            log.debug("response without status flags")
+            raise Type3TagCommandError(RSP_LENGTH_ERROR)
         if check_status and rsp[10] != 0:
             log.debug("tag returned error status {}".format(
                     hexlify(rsp[10:12]).decode()))
